@@ -14,6 +14,7 @@ package main
 
 import (
 	"bytes"
+	"encoding/json"
 	"fmt"
 	"io"
 	"os"
@@ -41,6 +42,71 @@ type prog struct {
 	Feat  map[string]int `json:"-"`
 	// structural classification
 	NestedDeferInDeferred bool `json:"nested_defer_in_deferred"`
+	// entry point: name of the function called (without parentheses) and its index in the Coq program
+	TopName string `json:"-"`
+	TopIdx  int    `json:"-"`
+	Replay  bool   `json:"-"`
+}
+
+// input is what is recorded for every evaluated tree (inputs.jsonl, failures): enough to re-execute it exactly
+func (p *prog) input() map[string]interface{} {
+	return map[string]interface{}{"src": p.Src, "call": p.TopName + "()", "coq": p.Coq, "top": p.TopIdx}
+}
+
+// loadReplay reads a replay file written by ./check: either {"failure": {"input": ...}} (direct-oracle failure) or
+// {"inputs": [{"idx":.., "input": ...}]} (correspondence broken).  An input is the map written by prog.input();
+// a plain string (the recorded source of a known finding followed by the call expression) is accepted too.
+func loadReplay(path string) ([]*prog, error) {
+	b, err := os.ReadFile(path)
+	if err != nil {
+		return nil, err
+	}
+	var obj map[string]interface{}
+	if err := json.Unmarshal(b, &obj); err != nil {
+		return nil, err
+	}
+	var raw []interface{}
+	if f, ok := obj["failure"].(map[string]interface{}); ok {
+		raw = append(raw, f["input"])
+	}
+	if ins, ok := obj["inputs"].([]interface{}); ok {
+		for _, x := range ins {
+			if m, ok := x.(map[string]interface{}); ok {
+				raw = append(raw, m["input"])
+			}
+		}
+	}
+	var out []*prog
+	for _, x := range raw {
+		p := &prog{Idx: len(out), Feat: map[string]int{}, Replay: true}
+		switch v := x.(type) {
+		case map[string]interface{}:
+			p.Src, _ = v["src"].(string)
+			call, _ := v["call"].(string)
+			p.TopName = strings.TrimSuffix(strings.TrimSpace(call), "()")
+			p.Coq, _ = v["coq"].(string)
+			if t, ok := v["top"].(float64); ok {
+				p.TopIdx = int(t)
+			}
+		case string:
+			t := strings.TrimSpace(v)
+			i := strings.LastIndex(t, "\n")
+			if i < 0 {
+				continue
+			}
+			p.Src, p.TopName = t[:i+1], strings.TrimSuffix(strings.TrimSpace(t[i+1:]), "()")
+		default:
+			continue
+		}
+		if p.Src == "" || p.TopName == "" {
+			continue
+		}
+		out = append(out, p)
+	}
+	if len(out) == 0 {
+		return nil, fmt.Errorf("no replayable input in %s", path)
+	}
+	return out, nil
 }
 
 type gen struct {
@@ -267,7 +333,7 @@ func oracle(a *vh.Args, progs []*prog) (map[int]obs, error) {
 	}
 	sb.WriteString("func main() {\n")
 	for _, p := range progs {
-		fmt.Fprintf(&sb, "\trun(%d, p%d_f%d)\n", p.Idx, p.Idx, len(p.Funcs)-1)
+		fmt.Fprintf(&sb, "\trun(%d, %s)\n", p.Idx, p.TopName)
 	}
 	sb.WriteString("}\n")
 	if err := os.WriteFile(filepath.Join(dir, "main.go"), []byte(sb.String()), 0o644); err != nil {
@@ -406,16 +472,27 @@ func main() {
 		if o.Panic != "1" || fmt.Sprint(o.Trace) != "[1002]" {
 			nestedPresent = true
 			rep.Fail(vh.Failure{Key: nestedKey, What: "a panic raised and recovered inside a deferred call swallows the panic that caused the deferred call to run (pushDefer overwrites Run.PanicFun; maybeRepanic then sees nil)",
-				Input: nestedSrc + "k1()", Got: o, Want: "trace [1002], panic(1) escapes (compiled Go)"})
+				Input: map[string]interface{}{"src": nestedSrc, "call": "k1()", "coq": "[[ADeferClo [ADeferClo [ARecover]; APanic 2]; APanic 1]]", "top": 0}, Got: o, Want: "trace [1002], panic(1) escapes (compiled Go)"})
 		}
 		rep.Extra["defect_present:"+nestedKey] = nestedPresent
 	}
 	var progs []*prog
-	for i := 0; i < n; i++ {
-		p := genProg(rng.Fork(), nestedPresent)
-		p.Idx = i
-		p.render(fmt.Sprintf("p%d_", i))
-		progs = append(progs, p)
+	if a.Replay != "" {
+		// re-execute exactly the recorded tree(s): compiled Go, gomacro, and (when the Coq term was recorded) both models
+		var err error
+		if progs, err = loadReplay(a.Replay); err != nil {
+			fmt.Fprintln(os.Stderr, "replay:", err)
+			os.Exit(2)
+		}
+		rep.Extra["replayed"] = len(progs)
+	} else {
+		for i := 0; i < n; i++ {
+			p := genProg(rng.Fork(), nestedPresent)
+			p.Idx = i
+			p.render(fmt.Sprintf("p%d_", i))
+			p.TopName, p.TopIdx = fmt.Sprintf("p%d_f%d", i, len(p.Funcs)-1), len(p.Funcs)-1
+			progs = append(progs, p)
+		}
 	}
 	wd.Beat("oracle")
 	want, err := oracle(a, progs)
@@ -436,15 +513,15 @@ func main() {
 			fmt.Fprintf(os.Stderr, "no oracle output for %d\n", p.Idx)
 			os.Exit(2)
 		}
-		top := fmt.Sprintf("p%d_f%d()", p.Idx, len(p.Funcs)-1)
+		top := p.TopName + "()"
 		if perr := vh.Catch(func() { it.ir.Eval(p.Src) }); perr != nil {
-			rep.Fail(vh.Failure{Key: "src:" + p.Src, What: "gomacro rejects a program accepted by the Go compiler", Input: p.Src, Got: fmt.Sprint(perr), Want: w})
+			rep.Fail(vh.Failure{Key: "src:" + p.Src, What: "gomacro rejects a program accepted by the Go compiler", Input: p.input(), Got: fmt.Sprint(perr), Want: w})
 			it = newInterp()
 			continue
 		}
 		o := it.run(top)
 		if o.String() != w.String() {
-			rep.Fail(vh.Failure{Key: "src:" + p.Src, What: "events / result / escaping panic differ from compiled Go", Input: p.Src + top, Got: o, Want: w})
+			rep.Fail(vh.Failure{Key: "src:" + p.Src, What: "events / result / escaping panic differ from compiled Go", Input: p.input(), Got: o, Want: w})
 		}
 		ndef := p.Feat["defer-closure"] + p.Feat["defer-func"] + p.Feat["defer-in-loop"]
 		rep.Count(p.Src, p.Feat["panic"] > 0 && ndef > 0)
@@ -459,7 +536,12 @@ func main() {
 		if i%97 == 3 {
 			rep.Sample(map[string]interface{}{"src": p.Src, "go": w})
 		}
-		rep.CaseInput(p.Idx, map[string]interface{}{"src": p.Src, "call": top, "go": w, "gomacro": o})
+		in := p.input()
+		in["go"], in["gomacro"] = w, o
+		rep.CaseInput(p.Idx, in)
+		if p.Coq == "" {
+			continue // replay of an input recorded without its Coq term: direct oracle only
+		}
 		pv := "None"
 		if o.Panic != "" {
 			if v, err := strconv.Atoi(o.Panic); err == nil {
@@ -468,7 +550,7 @@ func main() {
 				pv = "(Some (-1))"
 			}
 		}
-		cw.Add(fmt.Sprintf("mkCase %d %s %d (N.to_nat 400) %s %d %s", p.Idx, p.Coq, len(p.Funcs)-1, coqZs(o.Trace), o.Result, pv))
+		cw.Add(fmt.Sprintf("mkCase %d %s %s %d (N.to_nat 400) %s %d %s", p.Idx, vh.CoqBool(!nestedPresent), p.Coq, p.TopIdx, coqZs(o.Trace), o.Result, pv))
 	}
 	cw.Close()
 	rep.Write()
